@@ -1818,6 +1818,26 @@ func (ctx Ctx) multipleAssignStmt(s *ast.AssignStmt) coq.Binding {
 		ctx.unsupported(s, "%v multiple assignment", s.Tok)
 	}
 
+	// Go evaluates the operands of all targets before any assignment happens,
+	// the translation assigns one target after the other: a later target must
+	// not mention a variable assigned by an earlier one (i, a[i] = f())
+	assigned := make(map[types.Object]bool)
+	for _, lhs := range s.Lhs {
+		ast.Inspect(lhs, func(n ast.Node) bool {
+			if id, ok := n.(*ast.Ident); ok {
+				if obj := ctx.info.ObjectOf(id); obj != nil && assigned[obj] {
+					ctx.unsupported(lhs, "assignment target uses %s, which is assigned earlier in the same statement", id.Name)
+				}
+			}
+			return true
+		})
+		if id, ok := lhs.(*ast.Ident); ok && id.Name != "_" {
+			if obj := ctx.info.ObjectOf(id); obj != nil {
+				assigned[obj] = true
+			}
+		}
+	}
+
 	names := make([]string, len(s.Lhs))
 	for i := 0; i < len(names); i += 1 {
 		names[i] = fmt.Sprintf("%d_ret", i)
